@@ -12,6 +12,12 @@ package socks
 //     or one byte per Read. A reference parser decides whether the reply is a complete success; the client must then
 //     return exactly the bound address of the reply, otherwise an error (never a panic: any panic is a violation).
 //
+//   VerifC54_boundname: the bound address of a successful reply is a name of EVERY length 0..255 (length byte forked over
+//     all 256 values, name and port bytes symbolic), for destinations of several kinds and lengths (the client reuses its
+//     request buffer for the reply when it is large enough, so the reply-length/request-length combination matters):
+//     IPv4 literals of 7 and 15 bytes, an IPv6 literal, names of 1, 12 and 255 bytes; the reply complete or cut 1..3
+//     bytes before its end; delivered whole or 7 bytes per Read.
+//
 // Sensitivity (mut.sh):
 //   client.go `byte(port>>8), byte(port)` -> `byte(port), byte(port>>8)`      caught (request: port)
 //   client.go `if len(host) > 255 {` -> `> 256`                               caught (request: 256-byte name)
@@ -29,6 +35,7 @@ import (
 func init() {
 	vfRegister("VerifC54_request", VerifC54_request)
 	vfRegister("VerifC54_reply", VerifC54_reply)
+	vfRegister("VerifC54_boundname", VerifC54_boundname)
 }
 
 type c54conn struct {
@@ -359,6 +366,48 @@ func VerifC54_reply() {
 		vfAssert(err != nil && a == nil, "malformed, failed or truncated replies produce an error")
 		vfReach("rejected")
 	}
+	vfObserveBool("err", err != nil)
+	vfObserve("reads", uint64(conn.reads))
+	vfReach("end")
+}
+
+// VerifC54_boundname (B): every bound-name length against request buffers of several sizes. The method selection and
+// the reply head are concrete successes (their symbolic forms are VerifC54_reply's business).
+func VerifC54_boundname() {
+	dest := []string{"1.2.3.4:80", "192.168.100.200:65535", "[2001:db8::1]:443", "d:1", "dest.example:443", ""}[vfChoice("dest", 6)]
+	if dest == "" {
+		bs := make([]byte, 255)
+		for i := range bs {
+			bs[i] = 'n'
+		}
+		dest = string(bs) + ":8080"
+	}
+	n := vfLen("namelen", 0, 255)
+	name := vfBytes("boundname", n)
+	port := vfBytes("boundport", 2)
+	script := []byte{5, 0, 5, 0, 0, 3, byte(n)}
+	script = append(script, name...)
+	script = append(script, port...)
+	cut := len(script) - vfChoice("cut", 4)
+	conn := &c54conn{script: script[:cut], chunk: []int{0, 7}[vfChoice("chunk", 2)]}
+	d := NewDialer("tcp", "proxy.example:1080")
+
+	a, err := d.DialWithConn(context.Background(), conn, "tcp", dest)
+
+	ok, _, rname, rport := c54parseReply(script[:cut], false)
+	vfAssert(ok == (cut == len(script)), "harness: the reference accepts exactly the complete reply")
+	if ok {
+		vfAssert(err == nil, "a complete successful reply is accepted")
+		ba, _ := a.(*Addr)
+		vfAssert(ba != nil, "bound address returned")
+		vfAssert(ba.Port == rport && rport == int(port[0])<<8|int(port[1]), "bound port is the reply's")
+		vfAssert(ba.IP == nil && len(ba.Name) == n && c54bytesEq([]byte(ba.Name), rname), "bound name is the reply's")
+		vfReach("bound-name-any-length")
+	} else {
+		vfAssert(err != nil && a == nil, "truncated replies produce an error")
+		vfReach("truncated")
+	}
+	vfAssert(len(conn.writes) == 2, "method selection and one request were sent")
 	vfObserveBool("err", err != nil)
 	vfObserve("reads", uint64(conn.reads))
 	vfReach("end")
